@@ -10,6 +10,8 @@ import (
 	"flag"
 	"fmt"
 	"os"
+	"runtime"
+	"runtime/debug"
 	"runtime/pprof"
 	"sort"
 	"strconv"
@@ -21,6 +23,14 @@ import (
 )
 
 func main() {
+	if len(os.Args) >= 2 && (os.Args[1] == "work" || os.Args[1] == "replay" || os.Args[1] == "minimise") {
+		// one P: per-P runtime structures the library can observe (sync.Pool
+		// shards) then behave the same in every process; and no collection
+		// inside a run (workers collect only between runs, at fixed points)
+		runtime.GOMAXPROCS(1)
+		debug.SetGCPercent(-1)
+		debug.SetMemoryLimit(3 << 30)
+	}
 	if len(os.Args) < 2 {
 		fmt.Fprintln(os.Stderr, "usage: runner check|work|replay|minimise|selftest ...")
 		os.Exit(2)
@@ -43,6 +53,9 @@ func main() {
 		os.Exit(2)
 	}
 }
+
+// gcEvery: the collector runs before every gcEvery-th run of a worker.
+const gcEvery = 64
 
 func knownSet(s string) map[string]bool {
 	m := map[string]bool{}
@@ -130,13 +143,23 @@ func cmdWork(args []string) int {
 	if *marker != "" {
 		mf, _ = os.Create(*marker)
 	}
+	// Garbage collection is a source of nondeterminism the library can see
+	// (sync.Pool contents, finalizers): it goes behind the simulator too.
+	// The collector only runs at fixed points of the worker's run sequence
+	// (a memory limit stays as a safety net), so a replay of a suffix of the
+	// sequence meets the same pool states.
+	debug.SetGCPercent(-1)
+	debug.SetMemoryLimit(3 << 30)
 	for n := int64(0); n < *count; n++ {
+		if n%gcEvery == 0 {
+			runtime.GC()
+		}
 		if mf != nil {
 			var b [8]byte
 			binary.LittleEndian.PutUint64(b[:], uint64(idx))
 			_, _ = mf.WriteAt(b[:], 0)
 		}
-		if *deadline > 0 && n&63 == 0 && time.Now().Unix() >= *deadline {
+		if *deadline > 0 && n&7 == 0 && time.Now().Unix() >= *deadline {
 			break
 		}
 		rs := kit.Mix(*seed, uint64(idx))
@@ -250,7 +273,12 @@ func cmdReplay(args []string) int {
 		// process (package-level caches, pools): re-draw the worker's runs
 		// from..to in this fresh process
 		st := kit.NewStats()
+		debug.SetGCPercent(-1)
+		debug.SetMemoryLimit(3 << 30)
 		for n := t.Cfg("from", 0); n <= t.Cfg("to", 0); n++ {
+			if n%gcEvery == 0 {
+				runtime.GC()
+			}
 			o = eng.Run(kit.Mix(t.Seed, uint64(t.Cfg("start", 0)+n*t.Cfg("stride", 1))), st)
 			if o.Viol != nil {
 				break
